@@ -56,6 +56,12 @@ def expect (o : CodeOp) (s : State) : Option State :=
   | .cdr, _ :: l => some { s with code := .list [] :: l }
   -- "( A B )" and "X" give "( X A B )": an atom is consed onto the (coerced) list
   | .cons, top :: second :: l => if isList second then none else some { s with code := .list (second :: consElems top) :: l }
+  -- SUBST "replaces all and only structural matches": a target that IS the pattern becomes the substitute;
+  -- a target none of whose points matches stays as it is (the general case is `Item.subst`, see `subst_list`)
+  | .subst, target :: sub :: pat :: l =>
+    if Item.equals target pat then some { s with code := sub :: l }
+    else if (pts target).all (fun q => !Item.equals q pat) then some { s with code := target :: l }
+    else none
   | _, _ => none
 
 /-- the printed atoms of an item, in depth-first order -/
